@@ -59,9 +59,10 @@ class C02(Prop):
             "(CSV fallback of load), bit-pattern values (NaN payloads, infinities, -0.0) or count values (exact rationals for counts/second); "
             "outside the theorems' hypotheses, compared mechanism-vs-pewlib only (counted as hypothesis_excluded): scan records whose "
             "SpectrumOffset/ByteCount leave the instrument layout (beyond the profile: clip; below the header: negative index, wrap or IndexError; "
-            "misaligned, permuted, ByteCount 0/other, profile shorter/longer than the scans), per-line CSVs of unequal length (0 rows, 1 row: "
+            "misaligned, permuted, ByteCount 0/other, profile shorter/longer than the scans, one file a scan short: np.stack raises, an MSTS_XAddition "
+            "index outside the mass table: KeyError), per-line CSVs of unequal length (0 rows, 1 row: "
             "NumPy broadcast, other: ValueError), a data directory without digit in its name (directory scan raises); "
-            "96 targeted small batches (all 16 metadata subsets x sizes 1/2) + the minimal inputs of the two repaired defects + 14 off-hypothesis batches; "
+            "96 targeted small batches (all 16 metadata subsets x sizes 1/2) + the minimal inputs of the two repaired defects + 17 off-hypothesis batches; "
             "non-trivial = reaches a named size/order/log/metadata/CSV boundary class; distinct by canonical case hash")
     trusted = [
         "xml.etree.ElementTree, np.genfromtxt (field splitting, name validation with deletechars='', correctly rounded decimal->float64), "
@@ -167,6 +168,8 @@ class C02(Prop):
             rows = [{"index": i + 1, "precursor": m["pre"], "product": m["pro"]} for i, m in enumerate(masses)]
             if rng.random() < 0.3:
                 rng.shuffle(rows)
+            if pick("badindex", rng.random() < 0.03):  # an index outside the mass table: KeyError in mass_info_datafile
+                rows.insert(rng.randint(0, len(rows)), {"index": rng.choice([0, k + 1, k + 7]), "precursor": 999, "product": 999})
             xadd = {"scan_type": "MS_MS" if msms else "SingleQuad", "rows": rows}
 
         names = self.gen_names(rng, n + rng.choice([0, 0, 1, 2]))
@@ -254,7 +257,7 @@ class C02(Prop):
             files.append(f)
         if bad_binary and files:
             rng.choice(files)["binary"] = False
-        odd = pick("odd", rng.choice([None] * 30 + ["offsets", "offsets", "profile", "csvrows", "csvrows"]))
+        odd = pick("odd", rng.choice([None] * 30 + ["offsets", "offsets", "profile", "csvrows", "csvrows", "scancount"]))
         if odd == "offsets":  # scan records outside the instrument layout (clip / negative index / misaligned)
             for f in (files if pick("odd_all", rng.random() < 0.4) else [rng.choice(files)]):
                 self.odd_offsets(rng, f, k, pick("odd_kind", None))
@@ -264,6 +267,11 @@ class C02(Prop):
                 f["vals"] = f["vals"][: rng.randint(0, R - 1)]
             else:
                 f["vals"] = f["vals"] + self.gen_values(rng, mode, rng.randint(1, 2), k)
+        elif odd == "scancount" and len(files) >= 2:  # one data file with a scan less than the others: np.stack raises
+            f = rng.choice(files)
+            f["scans"], f["vals"] = f["scans"][:-1], f["vals"][:-1]
+            if f["csv"] is not None and rng.random() < 0.5:
+                f["csv"]["rows"] = f["csv"]["rows"][:-1]
         elif odd == "csvrows":  # per-line exports of unequal length
             with_csv = [f for f in files if f["csv"] is not None]
             if with_csv:
@@ -347,10 +355,16 @@ class C02(Prop):
             i += 1
             yield self.build(rng, n=2, k=2, R=3, mode="counts", odd="csvrows", odd_rows=rows, has_xml=True, dirty=False,
                              missing=False, csv_mode="all", methods=["batch_xml"], nodigit=False)
-        for methods in (["alphabetical"], ["batch_xml", "alphabetical"]):
+        for methods, has_xml in ((["alphabetical"], False), (["batch_xml", "alphabetical"], False), (["alphabetical", "batch_xml"], True)):
             rng = random.Random(f"C02-odd-{i}")
             i += 1
-            yield self.build(rng, n=2, k=1, R=2, mode="counts", odd=None, has_xml=False, methods=methods, nodigit=True)
+            yield self.build(rng, n=2, k=1, R=2, mode="counts", odd=None, has_xml=has_xml, missing=False, methods=methods, nodigit=True)
+        rng = random.Random(f"C02-odd-{i}")
+        yield self.build(rng, n=2, k=2, R=3, mode="counts", odd="scancount", has_xml=True, dirty=False, missing=False, csv_mode="all",
+                         methods=["batch_xml"], nodigit=False)
+        rng = random.Random(f"C02-odd-{i + 1}")
+        yield self.build(rng, n=2, k=2, R=2, mode="counts", odd=None, has_xadd=True, badindex=True, has_xml=True, dirty=False, missing=False,
+                         csv_mode="all", methods=["batch_xml"], nodigit=False)
 
     def targeted(self, tier):
         import itertools
@@ -663,6 +677,8 @@ class C02(Prop):
         k = case["k"]
         for f in case["files"]:
             R, D = len(f["scans"]), len(f["vals"])
+            if R != len(case["files"][0]["scans"]):
+                return "scan-count"
             if D != R:
                 return "profile-length"
             for r, s in enumerate(f["scans"]):
@@ -679,7 +695,7 @@ class C02(Prop):
                 return "misaligned"
             if [s["off"] for s in f["scans"]] != [68 + r * 28 * k for r in range(R)]:
                 return "permuted"
-        return "scan-count"
+        return "xaddition-index"
 
     @staticmethod
     def _is_csv_load(rep, side):
